@@ -341,3 +341,14 @@ func VerifReviseSeverity(app bool, sev int) int {
 	}
 	return int(errors.Recover(reviseSeverity(err)).Severity)
 }
+
+// VerifCFSlots returns the occupied slots of a combining frame's hash table: index, and the data frame to read
+// the rows from (slot i is row i of the frame).
+func VerifCFSlots(c *VerifCombiningFrame) (idx []int, data frame.Frame) {
+	for i, n := range c.hits {
+		if n > 0 {
+			idx = append(idx, i)
+		}
+	}
+	return idx, c.data
+}
